@@ -12,7 +12,7 @@ import ast
 from .. import AnalysisError, AnchorMissing
 from ..cfg import cfg_of
 from ..model import own_nodes
-from ..values import pattern, match, find, contains, show, subterms
+from ..values import pattern, match, match_any, find, contains, show, subterms
 from .base import obligation, src, callee_name, if_branches, split_if
 from .C04 import pattern_term, returns, enclosing_loop, _inside
 
@@ -783,3 +783,45 @@ obligation('C03-i', 'T5 T8', 'positional parents are numbered in declaration ord
            'is built (shared with C14-g)', floor=4,
            necessary='the executor sorts positional arguments by the index stored on the edge: '
                      'a wrong index is a wrong argument order')(_C14.c14_g)
+
+
+@obligation('C03-j', 'T6 T11', 'every node whose value is present is cut out of the dependency '
+            'graph, unconditionally', floor=2,
+            necessary='a supplied node that stays in the dependency graph keeps its ancestors '
+                      'reachable: their operations run although nothing requested depends on them')
+def c03_j(ctx):
+    eo = ctx.fn('elfi.executor:Executor.get_execution_order')
+    ex = ctx.ex(eo)
+    rm = ctx.calls(eo, name='remove_node')
+    if not rm:
+        raise AnchorMissing('remove_node on the dependency graph')
+    g = cfg_of(eo)
+    for c in rm:
+        lp = enclosing_loop(c)
+        has = False
+        extra = []
+        for (tn, pol) in g.guards_of(ctx.node(eo, c)):
+            if tn.kind != 'test' or lp is None or not _inside(tn.ast, lp):
+                continue        # conditions on the whole computation (nothing needed, cache hit)
+            t = ex.raw(tn.ast)
+            if pol and match(t, pattern("'output' in _")) is not None:
+                has = True
+            elif (not pol) and isinstance(tn.stmt, ast.If) and tn.stmt.body and \
+                    all(isinstance(b, ast.Raise) for b in tn.stmt.body[-1:]):
+                continue        # a validation test that raises: not a condition on the removal
+            else:
+                extra.append(t)
+        ctx.check(has and not extra, eo, 'valued node removed under `output present` only',
+                  "if 'output' in attr: dep_graph.remove_node(node)",
+                  'the removal of a valued node from the dependency graph also depends on {}: '
+                  'a supplied node can stay and pull its ancestors into the execution order'
+                  .format([show(t)[:50] for t in extra]) if extra else
+                  'remove_node is not executed for nodes whose output is present', fn=eo, node=c)
+        # it runs for every node of the graph (loop over the sort order / all nodes)
+        it = ex.term(lp.iter) if isinstance(lp, ast.For) else None
+        ok = it is not None and (contains(it, 'nx_constant_topological_sort(G)') or
+                                 match_any(it, ('G.nodes', 'G.nodes()', 'G')) is not None or
+                                 contains(it, "_['sort_order']"))
+        ctx.check(ok, eo, 'all nodes are visited', 'for node in sort_order',
+                  'the pruning loop does not run over all nodes of the graph', fn=eo,
+                  node=lp or c)
